@@ -280,3 +280,178 @@ def carriers(ctx, label='how a pattern list is carried (list, tuple, generator; 
                                        {'patterns': pats, 'carrier': how, 'flags': corr.flag_names(fl), 'names': names})
     ctx.counted(label, n, n // 2, [{'patterns': ['!a*'], 'carrier': 'bytes list', 'flags': 'NEGATE|NEGATEALL'}])
     return n
+
+
+def empty_pattern(ctx, label='the empty pattern matches no path'):
+    """The empty pattern has no segment: it matches no path under any flag (MATCHBASE included), and adds nothing to a list."""
+    from wcmatch import glob as Gm, fnmatch as Fm, pathlib as PLm
+    n = bad = 0
+    names = ['a/b', 'x.py', 'd/x.py', 'a', '.h', 'a/', '/', '/a', '.', '..', 'a/.h']
+    G = Gm
+    for fl in (0, G.MATCHBASE, G.MATCHBASE | G.GLOBSTAR, G.MATCHBASE | G.DOTGLOB, G.MATCHBASE | G.GLOBSTAR | G.DOTGLOB | G.EXTGLOB, G.GLOBSTAR, G.MATCHBASE | G.FORCEWIN, G.MATCHBASE | G.GLOBSTARLONG | G.FOLLOW,
+               G.MATCHBASE | G.NEGATE, G.MATCHBASE | G.NODIR, G.MATCHBASE | G.SPLIT | G.BRACE, G.MATCHBASE | G.RAWCHARS):
+        for empty in ('', [''], ('',), ['', ''], b''):
+            n += 1
+            nm_ = [os.fsencode(x) for x in names] if isinstance(empty, bytes) else names
+            try:
+                got = [x for x in nm_ if Gm.globmatch(x, empty, flags=fl)] + Gm.globfilter(nm_, empty, flags=fl) + [x for x in nm_ if Gm.compile(empty, flags=fl).match(x)]
+            except Exception as ex:
+                got = ['raised %s: %s' % (type(ex).__name__, ex)]
+            if got and bad < 4:
+                bad += 1
+                ctx.counterexample('globmatch / globfilter / compile(%r, %s) accepts %r: the empty pattern matches no path' % (empty, corr.flag_names(fl), got), {'pattern': repr(empty), 'flags': corr.flag_names(fl), 'accepted': [os.fsdecode(x) for x in got]})
+        for other in ('*.py', 'a', '*/b', '!x*'):
+            if other.startswith('!') and not fl & G.NEGATE:
+                continue
+            for lst in (['', other], [other, ''], ('', other, '')):
+                n += 1
+                want = Gm.globfilter(names, other, flags=fl)
+                try:
+                    got = Gm.globfilter(names, lst, flags=fl)
+                    got2 = [x for x in names if Gm.globmatch(x, (p for p in lst), flags=fl)]
+                except Exception as ex:
+                    got = got2 = ['raised %s: %s' % (type(ex).__name__, ex)]
+                if (got != want or got2 != want) and bad < 4:
+                    bad += 1
+                    ctx.counterexample('globfilter(%r, %r, %s) = %r (one by one %r); %r alone gives %r and the empty pattern adds nothing' % (names, lst, corr.flag_names(fl), got, got2, other, want),
+                                       {'patterns': list(lst), 'flags': corr.flag_names(fl), 'names': names})
+    # fnmatch side and pathlib's right-anchored match
+    for fl in (0, Fm.DOTMATCH, Fm.EXTMATCH | Fm.NEGATE, Fm.SPLIT | Fm.BRACE):
+        n += 1
+        got = [x for x in ('a', '.h', 'x.py') if Fm.fnmatch(x, '', flags=fl) or Fm.fnmatch(x, ['', ''], flags=fl)]
+        if got and bad < 4:
+            bad += 1
+            ctx.counterexample("fnmatch(%r, '', %s) is True" % (got[0], corr.flag_names(fl)), {'pattern': '', 'flags': corr.flag_names(fl), 'name': got[0]})
+    for cls in (PLm.PurePosixPath, PLm.PureWindowsPath):
+        for q in ('a/f.txt', 'f.txt', 'a/b/c', '.h'):
+            for fl in (0, PLm.GLOBSTAR, PLm.DOTGLOB, PLm.EXTGLOB | PLm.NEGATE):
+                for empty in ('', [''], ('',), ['', 'no-such-name']):
+                    n += 1
+                    try:
+                        got = (cls(q).match(empty, flags=fl), cls(q).globmatch(empty, flags=fl), cls(q).full_match(empty, flags=fl))
+                    except Exception as ex:
+                        got = 'raised %s: %s' % (type(ex).__name__, ex)
+                    if got != (False, False, False) and bad < 4:
+                        bad += 1
+                        ctx.counterexample('%s(%r): match / globmatch / full_match(%r, %s) = %r' % (cls.__name__, q, empty, corr.flag_names(fl), got), {'path': q, 'pattern': repr(empty), 'flags': corr.flag_names(fl)})
+    ctx.counted(label, n, n, [{'pattern': '', 'flags': 'MATCHBASE', 'name': 'a/b'}])
+    return n
+
+
+def star_runs(ctx, label='runs of stars at the start of a segment'):
+    """A run of stars is one star (without GLOBSTAR; with it, a run of three or more is still one wildcard construct):
+    none of them matches a leading dot, whatever the length of the run."""
+    from wcmatch import glob as Gm, fnmatch as Fm
+    n = bad = 0
+    names = ['.a', 'd/.a', '.bca', 'a', 'd/a', '.', '..', 'd/.', 'd', '.a/b', 'x.y']
+    for k in (2, 3, 4, 5, 8, 31):
+        st = '*' * k
+        for tmpl in ('%s', 'd/%s', '@(%s)', '%sa', 'd/@(%s|x)', '%s/b', '?(%s)a', '%s.y', '[!x]%s'):
+            for fl in (0, Gm.EXTGLOB, Gm.EXTGLOB | Gm.NODOTDIR, Gm.EXTGLOB | Gm.FORCEWIN, Gm.EXTGLOB | Gm.DOTGLOB, Gm.GLOBSTAR | Gm.EXTGLOB):
+                if '(' in tmpl and not fl & Gm.EXTGLOB:
+                    continue
+                if fl & Gm.GLOBSTAR and (k == 2 or tmpl not in ('%sa', '%s.y', '[!x]%s', '@(%s)', 'd/@(%s|x)', '?(%s)a')):
+                    continue     # a whole segment of stars is the recursive wildcard there
+                n += 1
+                p, ref = tmpl % st, tmpl % '*'
+                got = [x for x in names if Gm.globmatch(x, p, flags=fl)]
+                want = [x for x in names if Gm.globmatch(x, ref, flags=fl)]
+                gotf = [x for x in names if '/' not in x and Fm.fnmatch(x, p, flags=fl & (Fm.EXTMATCH | Fm.DOTMATCH))] if '/' not in p else []
+                wantf = [x for x in names if '/' not in x and Fm.fnmatch(x, ref, flags=fl & (Fm.EXTMATCH | Fm.DOTMATCH))] if '/' not in p else []
+                if (got != want or gotf != wantf) and bad < 4:
+                    bad += 1
+                    d_ = sorted(set(got) ^ set(want)) or sorted(set(gotf) ^ set(wantf))
+                    ctx.counterexample('globmatch(%r, %r, %s) differs from the same pattern with one star (%r): a run of stars is one star' % (d_[0], p, corr.flag_names(fl), ref),
+                                       {'name': d_[0], 'pattern': p, 'flags': corr.flag_names(fl), 'one_star': ref, 'got': got, 'want': want})
+    ctx.counted(label, n, n, [{'pattern': '***', 'name': '.a'}])
+    return n
+
+
+def dot_newline(ctx, label='hidden names that are dots plus a line feed'):
+    """`.\\n` and `..\\n` are ordinary hidden names: a segment pattern that writes the dot matches them (NODOTDIR or not),
+    in the matcher and on a real tree."""
+    import trees
+    from wcmatch import glob as Gm, pathlib as PLm
+    n = bad = 0
+    cases = [('.\n', '.*'), ('..\n', '.*'), ('..\n', '..*'), ('..\n', '..?'), ('.\n', '.?'), ('.\n', '.[!a]'), ('d/.\n', 'd/.*'), ('d/..\n', 'd/..?'), ('.\n', '.\n'), ('..\n', '.@(.\n)'), ('.\n/x', '.*/x'),
+             ('.a\n', '.*'), ('.\r', '.*'), ('.\n\n', '.*')]
+    for name, pat in cases:
+        for fl in (Gm.NODOTDIR, 0, Gm.NODOTDIR | Gm.DOTGLOB, Gm.NODOTDIR | Gm.EXTGLOB | Gm.GLOBSTAR, Gm.NODOTDIR | Gm.FORCEWIN, Gm.NODOTDIR | Gm.IGNORECASE):
+            if '(' in pat and not fl & Gm.EXTGLOB:
+                continue
+            n += 1
+            got = (Gm.globmatch(name, pat, flags=fl), Gm.globfilter([name], pat, flags=fl) == [name], bool(Gm.compile(pat, flags=fl).match(name)), Gm.globmatch(name.encode(), pat.encode(), flags=fl))
+            if got != (True,) * 4 and bad < 4:
+                bad += 1
+                ctx.counterexample('globmatch(%r, %r, %s) = %r: the written dot consumes the dot of this (ordinary, hidden) name' % (name, pat, corr.flag_names(fl), got), {'name': name, 'pattern': pat, 'flags': corr.flag_names(fl)})
+    spec = [('.\n', 'f', None), ('..\n', 'f', None), ('d', 'd', None), ('d/.\n', 'f', None), ('d/..\n', 'd', None), ('d/..\n/f', 'f', None), ('.h', 'f', None), ('v', 'f', None)]
+    with trees.Tree(spec) as T:
+        for pat, want in (('.*', ['.\n', '..\n', '.h']), ('d/.*', ['d/.\n', 'd/..\n']), ('..?', ['..\n']), ('d/.*/f', ['d/..\n/f']), ('*/.?', ['d/.\n']), ('.[!h]', ['.\n']), ('d/..*/', ['d/..\n'])):
+            for fl in (0, Gm.DOTGLOB, Gm.EXTGLOB | Gm.MARK, Gm.GLOBSTAR):
+                n += 1
+                runs = {'glob': lambda: Gm.glob(pat, flags=fl, root_dir=T.root), 'bytes': lambda: [os.fsdecode(x) for x in Gm.glob(os.fsencode(pat), flags=fl, root_dir=os.fsencode(T.root))],
+                        'Path.glob': lambda: [os.path.relpath(str(x), T.root) for x in PLm.Path(T.root).glob(pat, flags=fl)]}
+                for how, th in runs.items():
+                    got = sorted(x.rstrip('/') for x in th())
+                    if got != sorted(want) and bad < 4:
+                        bad += 1
+                        ctx.counterexample('%s(%r, %s) returns %r on a tree holding %r: the entries whose dot the pattern writes are %r' % (how, pat, corr.flag_names(fl), got, [x[0] for x in spec], sorted(want)),
+                                           {'pattern': pat, 'flags': corr.flag_names(fl), 'tree': [x[0] for x in spec], 'how': how})
+    ctx.counted(label, n, n, [{'name': '.\n', 'pattern': '.*', 'flags': 'NODOTDIR'}])
+    return n
+
+
+def odd_symlinks(ctx, label='symlinked directories with white space in their names; descriptor 0'):
+    """`**` under REALPATH refuses a path that goes through a symlinked directory exactly where the walk does not traverse
+    it - whatever the name of the link (leading / trailing white space, line feeds) and however the root is given
+    (root_dir, dir_fd, dir_fd=0 with an unrelated working directory)."""
+    import tempfile
+    import trees
+    from wcmatch import glob as Gm
+    n = bad = 0
+    spec = [('real', 'd', None), ('real/x', 'f', None), ('real/sub', 'd', None), ('real/sub/x', 'f', None), ('link ', 'l', 'real'), ('nl\n', 'l', 'real'), (' lead', 'l', 'real'), ('\tt\r', 'l', 'real'),
+            ('\xa0nb', 'l', 'real'), ('real/in ', 'l', 'sub'), ('plain', 'l', 'real'), ('real/in', 'l', 'sub'), ('real/sub/up', 'l', '.'), (' rd ', 'd', None), (' rd /x', 'f', None), ('x', 'f', None)]
+    G = Gm.GLOBSTAR
+    with trees.Tree(spec) as T:
+        cands = [q for q in T.entries_follow(4)]
+        fd = os.open(T.root, os.O_RDONLY)
+        saved0 = os.dup(0)
+        oldcwd = os.getcwd()
+        elsewhere = tempfile.mkdtemp(prefix='wcelse_')
+        try:
+            os.dup2(fd, 0)
+            os.chdir(elsewhere)
+            for pat in ('**/x', 'real/**/x', '**', '**/sub/x', '*/**/x', '**/'):
+                for fl in (G, G | Gm.DOTGLOB, G | Gm.FOLLOW, Gm.GLOBSTARLONG):
+                    walk = set(x.rstrip('/') for x in Gm.glob(pat, flags=fl, root_dir=T.root))
+                    p3 = pat.replace('**', '***') if fl & Gm.GLOBSTARLONG else None
+                    walk3 = set(x.rstrip('/') for x in Gm.glob(p3, flags=fl, root_dir=T.root)) if p3 else None
+                    for q in cands:
+                        full = os.path.join(T.root, q)
+                        if pat == '**/' and not os.path.isdir(full):
+                            continue    # finding C04-gstar-div-accepts-file
+                        if os.path.islink(full) and not os.path.isdir(full):
+                            continue
+                        for (pp, ww) in ((pat, walk), (p3, walk3)):
+                            if pp is None:
+                                continue
+                            n += 1
+                            want = q in ww
+                            if not want and any(os.path.islink(os.path.join(T.root, *q.split('/')[:k])) for k in range(1, len(q.split('/')))) and sum(1 for sg in pp.split('/') if '*' in sg) > 1:
+                                continue    # several ways to split the path between the segments: finding C04-first-decomposition-only
+                            got = {'root_dir': Gm.globmatch(q, pp, flags=fl | Gm.REALPATH, root_dir=T.root), 'dir_fd': Gm.globmatch(q, pp, flags=fl | Gm.REALPATH, dir_fd=fd),
+                                   'dir_fd=0': Gm.globmatch(q, pp, flags=fl | Gm.REALPATH, dir_fd=0), 'compiled, dir_fd=0': Gm.compile(pp, flags=fl | Gm.REALPATH).match(q, dir_fd=0),
+                                   'bytes, root_dir': Gm.globmatch(os.fsencode(q), os.fsencode(pp), flags=fl | Gm.REALPATH, root_dir=os.fsencode(T.root))}
+                            wrong = sorted(k for k, v in got.items() if bool(v) != want)
+                            if wrong and bad < 4:
+                                bad += 1
+                                ctx.counterexample('globmatch(%r, %r, %s|REALPATH) with the root given by %s is %r but glob %s it (%r)' % (q, pp, corr.flag_names(fl), wrong[0], bool(got[wrong[0]]), 'returns' if want else 'does not return', got),
+                                                   {'path': q, 'pattern': pp, 'flags': corr.flag_names(fl), 'how': wrong[0], 'tree': [list(map(str, x)) for x in spec]})
+        finally:
+            os.chdir(oldcwd)
+            os.dup2(saved0, 0)
+            os.close(saved0)
+            os.close(fd)
+            os.rmdir(elsewhere)
+    ctx.counted(label, n, n // 2, [{'path': 'link /x', 'pattern': '**/x', 'flags': 'GLOBSTAR|REALPATH'}])
+    return n
